@@ -14,9 +14,11 @@
    "illegal input").  Two float expressions of the source are inputs of a
    call: fd = fl(_front - rwork[11]) and the first target p of _one_step.
    Times are an ordered type (Z, exact scaling of the doubles of a case).
-   `fixed = false` is the source as it is; `fixed = true` has the proposed
-   repair of _backstep (no integrate call when the restart already stands at
-   the requested time).  No proofs in this file. *)
+   `fixed = true` is the source as it is (since commit 9575753: no integrate
+   call when the restart of _backstep already stands at the requested time);
+   `fixed = false` is _backstep as it was before that commit, kept to
+   document the former defect and to recognise a regression.
+   No proofs in this file. *)
 From Coq Require Import List ZArith Bool Arith.
 Import ListNotations.
 Open Scope Z_scope.
